@@ -1,0 +1,5 @@
+//go:build !verif
+
+package multiplex
+
+func vhook(point string) {}
